@@ -19,7 +19,8 @@ PROFILE_T = gen.Profile("schema", weights=W, max_steps=9, max_rows=16, n_tables=
 
 
 def systematic(tier):
-    return templates.c01_cases(tier)
+    m = templates.matrix_cases(tier)
+    return templates.c01_cases(tier) + (m if tier == "thorough" else m[::2])
 
 
 def strategy(tier):
